@@ -169,7 +169,7 @@ theorem unitConsts_facts (U : UnicodeOps) (cfg : Cfg) (orig : Str) : ∀ (vs : L
 theorem algVariant_facts (U : UnicodeOps) (cfg : Cfg) (e : RustEnum) (sn tk : Str) (cst : List Str)
     (v : RustEnumVariant) (st st' : Imports) (g : GoAlgVariant)
     (h : algVariant U cfg e sn tk cst v st = .ok (g, st')) :
-    g.wire = v.id.renamed ∧ ∃ vn tp, acr U cfg v.id.original = .ok vn ∧ acr U cfg (Rename.toPascal tk) = .ok tp ∧
+    g.wire = v.id.renamed ∧ ∃ vn tp, acr U cfg v.id.original = .ok vn ∧ acr U cfg (Rename.toPascal U tk) = .ok tp ∧
       g.constName = sn ++ tp ++ s%"Variant" ++ vn := by
   unfold algVariant at h
   obtain ⟨vn, hvn, h⟩ := (Outcome.bind_eq_ok _ _ _).1 h
